@@ -175,7 +175,7 @@ def check(ctx, tier):
     obs += ctx.attempt(lambda c, cl: gens.check(c, cl)[0], ctx, "D-h", default=[])
     obs += ctx.attempt(scanner.literal_type_table, ctx, "D-i", default=[])
     obs += ctx.attempt(scanner.numeric_token_table, ctx, "D-j", default=[])
-    obs += ctx.attempt(lambda c, cl: mergetable.invariants(c, cl, which=("coverage", "no-crash"))[0], ctx, "D-k", default=[])
+    obs += ctx.attempt(lambda c, cl: mergetable.invariants(c, cl, which=("coverage", "no-crash", "cardinality"))[0], ctx, "D-k", default=[])
     obs += ctx.attempt(lambda c, cl: scanner.rdflib_literal_datatype_source(c, cl)[0], ctx, "D-l", default=[])
     obs += ctx.attempt(lambda c, cl: count.class_iteration_agreement(c, cl)[0], ctx, "D-m", default=[])
     exceptions.apply(obs)
